@@ -25,7 +25,7 @@ func zzMakeLines(NL, LL int) *zzFlLines {
 		}
 		b := zz.NondetBytesN("line", ln)
 		for _, x := range b {
-			zz.Assume(x >= 0x20 && x <= 0x7E)
+			zz.Assume(zz.ByteRange(x, 0x20, 0x7E))
 		}
 		f.lines = append(f.lines, b)
 		f.input = append(f.input, b...)
